@@ -246,28 +246,28 @@ fn commit_case(fail_policy: bool, child_writes_a: bool, child_writes_b: bool) {
     core::mem::forget(r);
 }
 
-//@ harness kind=bounded tier=quick bound="<= 2 pending keys per column, values <= 3 bytes, 1-byte keys" timeout=900 extra="--default-unwind 5"
+//@ harness kind=bounded tier=thorough bound="<= 2 pending keys per column, values <= 3 bytes, 1-byte keys" timeout=2400 extra="--default-unwind 5"
 #[cfg(kani)] #[kani::proof] #[kani::stub(alloc::fmt::format, fmt_stub)]
 fn c10_commit_overwrite_00() { commit_case(false, false, false); }
-//@ harness kind=bounded tier=quick bound="<= 2 pending keys per column, values <= 3 bytes, 1-byte keys" timeout=900 extra="--default-unwind 5"
+//@ harness kind=bounded tier=thorough bound="<= 2 pending keys per column, values <= 3 bytes, 1-byte keys" timeout=2400 extra="--default-unwind 5"
 #[cfg(kani)] #[kani::proof] #[kani::stub(alloc::fmt::format, fmt_stub)]
 fn c10_commit_overwrite_01() { commit_case(false, false, true); }
-//@ harness kind=bounded tier=quick bound="<= 2 pending keys per column, values <= 3 bytes, 1-byte keys" timeout=900 extra="--default-unwind 5"
+//@ harness kind=bounded tier=quick bound="<= 2 pending keys per column, values <= 3 bytes, 1-byte keys" timeout=2400 extra="--default-unwind 5"
 #[cfg(kani)] #[kani::proof] #[kani::stub(alloc::fmt::format, fmt_stub)]
 fn c10_commit_overwrite_10() { commit_case(false, true, false); }
-//@ harness kind=bounded tier=quick bound="<= 2 pending keys per column, values <= 3 bytes, 1-byte keys" timeout=900 extra="--default-unwind 5"
+//@ harness kind=bounded tier=thorough bound="<= 2 pending keys per column, values <= 3 bytes, 1-byte keys" timeout=2400 extra="--default-unwind 5"
 #[cfg(kani)] #[kani::proof] #[kani::stub(alloc::fmt::format, fmt_stub)]
 fn c10_commit_overwrite_11() { commit_case(false, true, true); }
-//@ harness kind=bounded tier=quick bound="<= 2 pending keys per column, values <= 3 bytes, 1-byte keys" timeout=900 extra="--default-unwind 5"
+//@ harness kind=bounded tier=thorough bound="<= 2 pending keys per column, values <= 3 bytes, 1-byte keys" timeout=2400 extra="--default-unwind 5"
 #[cfg(kani)] #[kani::proof] #[kani::stub(alloc::fmt::format, fmt_stub)]
 fn c10_commit_fail_00() { commit_case(true, false, false); }
-//@ harness kind=bounded tier=quick bound="<= 2 pending keys per column, values <= 3 bytes, 1-byte keys" timeout=900 extra="--default-unwind 5"
+//@ harness kind=bounded tier=thorough bound="<= 2 pending keys per column, values <= 3 bytes, 1-byte keys" timeout=2400 extra="--default-unwind 5"
 #[cfg(kani)] #[kani::proof] #[kani::stub(alloc::fmt::format, fmt_stub)]
 fn c10_commit_fail_01() { commit_case(true, false, true); }
-//@ harness kind=bounded tier=quick bound="<= 2 pending keys per column, values <= 3 bytes, 1-byte keys" timeout=900 extra="--default-unwind 5"
+//@ harness kind=bounded tier=thorough bound="<= 2 pending keys per column, values <= 3 bytes, 1-byte keys" timeout=2400 extra="--default-unwind 5"
 #[cfg(kani)] #[kani::proof] #[kani::stub(alloc::fmt::format, fmt_stub)]
 fn c10_commit_fail_10() { commit_case(true, true, false); }
-//@ harness kind=bounded tier=quick bound="<= 2 pending keys per column, values <= 3 bytes, 1-byte keys" timeout=900 extra="--default-unwind 5"
+//@ harness kind=bounded tier=quick bound="<= 2 pending keys per column, values <= 3 bytes, 1-byte keys" timeout=2400 extra="--default-unwind 5"
 #[cfg(kani)] #[kani::proof] #[kani::stub(alloc::fmt::format, fmt_stub)]
 fn c10_commit_fail_11() { commit_case(true, true, true); }
 
